@@ -95,7 +95,8 @@ const goldenDir = "/verif/golden"
 func canonicalText(b *model.Bucket) string { return strings.Join(model.Canonical(b), "\n") + "\n" }
 
 // TestGenGolden writes the corpus; run once against the pinned build:
-//   VERIF_GOLDEN_OUT=/verif/golden go test -tags verif -run TestGenGolden -rapid.seed=7 -rapid.checks=24
+//
+//	VERIF_GOLDEN_OUT=/verif/golden go test -tags verif -run TestGenGolden -rapid.seed=7 -rapid.checks=24
 func TestGenGolden(t *testing.T) {
 	out := os.Getenv("VERIF_GOLDEN_OUT")
 	if out == "" {
